@@ -202,7 +202,7 @@ func (g *Grammar) Accepts(start string, toks []string) bool {
 				if s.Term {
 					if k < n {
 						tok := toks[k]
-						ok := (!s.Not && tok == s.Name) || (s.Not && tok != s.Name && tok != "EOF")
+						ok := (!s.Not && tok == s.Name) || (s.Not && tok != s.Name && tok != "EOF" && !strings.HasPrefix(tok, "@"))
 						if ok {
 							add(k+1, item{it.prod, it.dot + 1, it.origin})
 						}
@@ -257,4 +257,27 @@ func (g *Grammar) nullable() map[string]bool {
 		}
 	}
 	return nl
+}
+
+// TreeGrammar returns the grammar in which every reference to a declared parser rule X is the terminal "@X": a parse
+// tree node of rule R whose children are the tokens t1..tn / sub-trees of rules X1..Xk conforms to the grammar exactly
+// when the child sequence (token names and "@Xi") is derived from R in the tree grammar.
+func (g *Grammar) TreeGrammar() *Grammar {
+	isRule := map[string]bool{}
+	for _, r := range g.Rules {
+		isRule[r] = true
+	}
+	t := &Grammar{Rules: g.Rules, byLHS: map[string][]int{}}
+	for i, p := range g.Prods {
+		q := Prod{LHS: p.LHS}
+		for _, s := range p.RHS {
+			if !s.Term && isRule[s.Name] {
+				s = Sym{Name: "@" + s.Name, Term: true}
+			}
+			q.RHS = append(q.RHS, s)
+		}
+		t.Prods = append(t.Prods, q)
+		t.byLHS[q.LHS] = append(t.byLHS[q.LHS], i)
+	}
+	return t
 }
